@@ -6,7 +6,7 @@
 (* per case: Init picks the case, Judge evaluates every clause and records *)
 (* the first failing one.                                                  *)
 (***************************************************************************)
-EXTENDS Integers, Sequences, FiniteSets, TLC, Json, IOUtils, Layout, Affine, Template, Streamer, CsrLayout, PE
+EXTENDS Integers, Sequences, FiniteSets, TLC, Json, IOUtils, Layout, Affine, Template, Streamer, CsrLayout, PE, Dart
 
 Batch == JsonDeserialize(IOEnv.BATCH)
 Cases == Batch.cases
@@ -207,6 +207,13 @@ SubviewType(c) ==
 
 EqCase(c) == First(<< <<c.clause, c.x = c.y>> >>)
 
+(* ---------------- E04: a rewrite of dart.operation ops keeps the returned tensors (Dart.tla) ---------------- *)
+DartPair(c) ==
+  IF ~ProgOK(c.A) THEN "SourceWellFormed"
+  ELSE IF ~ProgOK(c.B) THEN "ResultWellFormed"
+  ELSE IF \E v \in DOMAIN c.vals : Run(c.A, c.vals[v]) # Run(c.B, c.vals[v]) THEN "SameResultTensors"
+  ELSE "ok"
+
 JudgeObj(c) ==
   CASE c.kind = "tsl" -> TslStatic(c)
     [] c.kind = "tsl_dyn" -> TslDynamic(c)
@@ -227,6 +234,7 @@ JudgeObj(c) ==
     [] c.kind = "relayout" -> Relayout(c)
     [] c.kind = "subviewtype" -> SubviewType(c)
     [] c.kind = "chosenlayout" -> ChosenLayout(c)
+    [] c.kind = "dartpair" -> DartPair(c)
     [] OTHER -> "machinery:unknown-kind"
 
 Init == tid \in 1..Len(Cases) /\ verdict = ""
